@@ -62,6 +62,7 @@ func TestZsimC09Rpc(t *testing.T) {
 
 func c09RpcRun(r *zsim.Run) {
 	timex.ZsimReset()
+	sheddingStat = nil // package-level, created lazily: forget the one of an earlier run
 	o, f := r.Ops, r.Fault
 	sh := &c09rShedder{reject: func() bool { return f.Intn(5) == 4 }}
 	in := UnarySheddingInterceptor(sh, stat.NewMetrics(fmt.Sprintf("c09r-%d", r.Seed)))
